@@ -1,1 +1,627 @@
-fn main() {}
+//! C04 — applying a mapping diff is exact; diff and apply are inverse.
+//!
+//! Code under observation: `MappingsDiff::apply_to`, `MappingsDiff::diff`, `quill::tiny_v2_diff::read_file`,
+//! `quill::apply_diff_option`. Oracle: the reference model in `refmodel.rs` (R-apply / R-diff over `maps::model`).
+//!
+//! Judged
+//! * apply: for every (diff, target): the reference refuses  <=>  `apply_to` returns `Err`; when both succeed the
+//!   results are equal as models (all names of all namespaces, comments, file comment, namespace names; untouched
+//!   entries identical; order is not a fact); the key invariant holds on every `Ok` result; `apply_to` leaves the
+//!   diff it was given unchanged. A refusal returns nothing (the target is consumed), so no partial result exists.
+//! * the same with the diff written by the harness' `.tinydiff` emitter and read by the real reader (the reader
+//!   must deliver exactly the diff that was written, modulo `Edit(a,a)` = `None`, which is what equal columns mean).
+//! * law: for fully named two-namespace sets A, B (parameters without source names): `diff(A,B)` succeeds, states
+//!   what R-diff states, and `apply(diff(A,B), A) = B` in memory, through the full text and through the sparse text.
+//! * `apply_diff_option`: the 5 x 4 table of action x target.
+//! Not judged (counted): `diff()` refusing sets with an entry that has no name in the target namespace (the diff
+//! model cannot state its removal / addition; a refusal is loud) — an `Ok` there must still satisfy the law;
+//! source names of parameters (no place in a diff: the result keeps A's, added parameters have none — that exact
+//! behaviour is what is compared); namespace `Remove`; passing the source namespace as the target namespace.
+mod emit;
+mod gen;
+mod refmodel;
+
+use common::{par::*, report::{finish, Meta}, *};
+use gen::{Cell, Expect, Share};
+use maps::{cmp, CommentClass, GenCfg, Ins, MapsDiff, ParamSrc};
+use quill::tree::mappings::{JavadocMapping, Mappings};
+use quill::tree::mappings_diff::{Action, MappingsDiff};
+use refmodel::{ref_apply, ref_diff, Outcome, Tgt, Verdict};
+use std::cell::RefCell;
+use std::path::PathBuf;
+use std::sync::atomic::{AtomicUsize, Ordering};
+use std::sync::OnceLock;
+
+const BELOW_REMOVED: &str = "C04 apply_to: succeeds although an action below a removed entry states an old value (or adds something) that does not fit the target";
+
+// ------------------------------------------------------------------------------------------------------------
+// scratch files (the reader is only reachable through `read_file(path)`)
+
+static SCRATCH_DIR: OnceLock<String> = OnceLock::new();
+static NEXT_FILE: AtomicUsize = AtomicUsize::new(0);
+thread_local! { static MY_FILE: RefCell<Option<PathBuf>> = const { RefCell::new(None) }; }
+fn scratch_file() -> PathBuf {
+    MY_FILE.with(|f| f.borrow_mut().get_or_insert_with(|| {
+        let dir = SCRATCH_DIR.get().expect("scratch dir set");
+        PathBuf::from(format!("{dir}/t{}.tinydiff", NEXT_FILE.fetch_add(1, Ordering::Relaxed)))
+    }).clone())
+}
+fn read_text(text: &str) -> Result<Result<MappingsDiff, String>, PanicInfo> {
+    let path = scratch_file();
+    if let Err(e) = std::fs::write(&path, text) { eprintln!("HARNESS-ERROR cannot write scratch file {path:?}: {e}"); std::process::exit(3); }
+    guard(|| quill::tiny_v2_diff::read_file(&path).map_err(|e| format!("{e:#}")))
+}
+
+// ------------------------------------------------------------------------------------------------------------
+// calling the real code
+
+fn build_target<const N: usize>(tgt: &Tgt, rng: &mut Rng) -> Mappings<N, ()> {
+    let mut q = maps::to_quill::<N, ()>(&tgt.maps, &mut Ins::Shuffle(&mut rng.fork())).expect("generated target is expressible");
+    q.javadoc = tgt.file_comment.clone().map(JavadocMapping);
+    q
+}
+fn observe<const N: usize>(q: &Mappings<N, ()>) -> Tgt { Tgt { maps: maps::from_quill(q), file_comment: q.javadoc.as_ref().map(|j| j.0.clone()) } }
+
+/// `apply_to` on a freshly built target. Outer `Err` = panic.
+fn real_apply<const N: usize>(rep: &mut Report, qd: &MappingsDiff, tgt: &Tgt, t: usize, rng: &mut Rng, input: &dyn Fn() -> Value) -> Result<Result<Tgt, String>, PanicInfo> {
+    let qt = build_target::<N>(tgt, rng);
+    let ns = tgt.maps.namespaces[t].clone();
+    let r = guard(|| qd.apply_to::<N, (), ()>(qt, &ns).map_err(|e| format!("{e:#}")))?;
+    Ok(match r {
+        Ok(q) => { maps::watch(rep, "C04", "apply_to", &q, input); Ok(observe(&q)) }
+        Err(e) => Err(e),
+    })
+}
+fn real_apply_dyn(rep: &mut Report, qd: &MappingsDiff, tgt: &Tgt, t: usize, rng: &mut Rng, input: &dyn Fn() -> Value) -> Result<Result<Tgt, String>, PanicInfo> {
+    match tgt.maps.n() { 2 => real_apply::<2>(rep, qd, tgt, t, rng, input), 3 => real_apply::<3>(rep, qd, tgt, t, rng, input), _ => unreachable!("targets have 2 or 3 namespaces") }
+}
+
+// ------------------------------------------------------------------------------------------------------------
+// judging
+
+fn tgt_diffs(e: &Tgt, o: &Tgt) -> Vec<(String, String)> {
+    let mut v = cmp::kinds(&cmp::diff_maps(&e.maps, &o.maps));
+    match (&e.file_comment, &o.file_comment) {
+        (a, b) if a == b => {}
+        (Some(a), None) => v.push(("file: comment lost".into(), format!("expected {a:?}"))),
+        (None, Some(b)) => v.push(("file: comment invented".into(), format!("observed {b:?}"))),
+        (a, b) => v.push(("file: comment differs".into(), format!("expected {a:?} observed {b:?}"))),
+    }
+    v
+}
+
+/// The comparison function of one `apply_to` call: `(signature, where)` per disagreement.
+fn judge(exp: &Outcome, obs: &Result<Tgt, String>) -> Vec<(String, String)> {
+    match (exp.verdict(), obs) {
+        (Verdict::Ok, Ok(o)) => tgt_diffs(&exp.result, o).into_iter().map(|(k, w)| (format!("C04 apply_to: result differs from the reference: {k}"), w)).collect(),
+        (Verdict::Ok, Err(e)) => vec![("C04 apply_to: refuses a diff that is consistent with the target".to_string(), e.clone())],
+        (Verdict::Refuse, Ok(_)) => {
+            let k = exp.reason_kinds();
+            let what = if k.len() == 1 { k[0].clone() } else { "the diff is inconsistent with the target in several ways".to_string() };
+            vec![(format!("C04 apply_to: succeeds although {what}"), exp.reasons.iter().map(|r| format!("{}{}", r.at, r.kind())).collect::<Vec<_>>().join("; "))]
+        }
+        (Verdict::RefuseBelowRemoved, Ok(o)) => {
+            let mut v = vec![(BELOW_REMOVED.to_string(), exp.below_removed.iter().map(|r| format!("{}{}", r.at, r.kind())).collect::<Vec<_>>().join("; "))];
+            v.extend(tgt_diffs(&exp.result, o).into_iter().map(|(k, w)| (format!("C04 apply_to: result differs from the reference: {k}"), w)));
+            v
+        }
+        (Verdict::Refuse | Verdict::RefuseBelowRemoved, Err(_)) => vec![],
+    }
+}
+
+#[derive(Clone, Copy, Debug, PartialEq, Eq)]
+enum Seen { Applied, Refused, Panicked, NotRun }
+
+struct LegResult { expected: Verdict, seen: Seen }
+
+fn outcome_json(o: &Outcome) -> Value {
+    json!({"verdict": format!("{:?}", o.verdict()), "reasons": o.reasons.iter().map(|r| format!("{}{}", r.at, r.kind())).collect::<Vec<_>>(),
+        "below_removed": o.below_removed.iter().map(|r| format!("{}{}", r.at, r.kind())).collect::<Vec<_>>(),
+        "result": if o.reasons.is_empty() { json!({"set": o.result.maps.render(), "file_comment": o.result.file_comment}) } else { Value::Null }})
+}
+fn obs_json(o: &Result<Tgt, String>) -> Value { match o { Ok(t) => json!({"ok": {"set": t.maps.render(), "file_comment": t.file_comment}}), Err(e) => json!({"err": e}) } }
+
+/// One application, memory leg: reference vs `apply_to` on the diff built in memory.
+fn memory_leg(rep: &mut Report, rng: &mut Rng, d: &MapsDiff, tgt: &Tgt, t: usize, what: &str) -> LegResult {
+    let exp = ref_apply(d, tgt, t);
+    let input = || json!({"leg": "memory", "workload": what, "target": tgt.maps.render(), "target_file_comment": tgt.file_comment, "target_namespace": tgt.maps.namespaces[t], "diff": d.render(), "diff_top": format!("info {:?} comment {:?}", d.info, d.comment)});
+    let qd = maps::to_quill_diff(d, &mut Ins::Shuffle(&mut rng.fork())).expect("generated diff is expressible");
+    rep.eval();
+    let obs = match real_apply_dyn(rep, &qd, tgt, t, rng, &input) {
+        Err(pi) => { rep.violation(format!("C04 panic {}", pi.site()), json!({"panic": pi.message, "input": input()})); return LegResult { expected: exp.verdict(), seen: Seen::Panicked }; }
+        Ok(o) => o,
+    };
+    if maps::from_quill_diff(&qd) != *d { rep.violation("C04 apply_to: the diff it was given is changed by the call", json!({"input": input()})); }
+    for (sig, w) in judge(&exp, &obs) { rep.violation(sig, json!({"where": w, "input": input(), "expected": outcome_json(&exp), "observed": obs_json(&obs)})); }
+    LegResult { expected: exp.verdict(), seen: if obs.is_ok() { Seen::Applied } else { Seen::Refused } }
+}
+
+/// Writes `nd` (already normalised) with a drawn layout, reads it with the real reader, compares the diff read
+/// with the diff written. Returns the diff the reader delivered.
+fn through_text(rep: &mut Report, rng: &mut Rng, nd: &MapsDiff, what: &str) -> Option<MappingsDiff> {
+    let lay = emit::Layout::draw(rng);
+    let text = emit::emit(nd, &lay, rng);
+    rep.count("text.files_written");
+    rep.seen("text.layouts", &lay.describe());
+    let input = || json!({"leg": "text", "workload": what, "text": text, "layout": lay.describe(), "diff": nd.render()});
+    rep.eval();
+    match read_text(&text) {
+        Err(pi) => { rep.violation(format!("C04 panic {}", pi.site()), json!({"panic": pi.message, "input": input()})); None }
+        Ok(Err(e)) => { rep.violation("C04 tinydiff: the reader rejects a well-formed diff text", json!({"error": e, "input": input()})); None }
+        Ok(Ok(q)) => {
+            let got = maps::from_quill_diff(&q);
+            let dd = cmp::kinds(&cmp::diff_diffs(nd, &got));
+            for (k, w) in &dd { rep.violation(format!("C04 tinydiff: the diff read differs from the diff written: {k}"), json!({"where": w, "input": input(), "read": got.render()})); }
+            if dd.is_empty() { rep.count("text.read_equals_written"); Some(q) } else { None }
+        }
+    }
+}
+
+/// One application, text leg: the diff travels through its text form first.
+fn text_leg(rep: &mut Report, rng: &mut Rng, d: &MapsDiff, tgt: &Tgt, t: usize, what: &str) -> LegResult {
+    let nd = refmodel::normalise(d);
+    let exp = ref_apply(&nd, tgt, t);
+    let Some(qd) = through_text(rep, rng, &nd, what) else { return LegResult { expected: exp.verdict(), seen: Seen::NotRun } };
+    let input = || json!({"leg": "text", "workload": what, "target": tgt.maps.render(), "target_file_comment": tgt.file_comment, "target_namespace": tgt.maps.namespaces[t], "diff_as_read": nd.render()});
+    rep.eval();
+    let obs = match real_apply_dyn(rep, &qd, tgt, t, rng, &input) {
+        Err(pi) => { rep.violation(format!("C04 panic {}", pi.site()), json!({"panic": pi.message, "input": input()})); return LegResult { expected: exp.verdict(), seen: Seen::Panicked }; }
+        Ok(o) => o,
+    };
+    for (sig, w) in judge(&exp, &obs) { rep.violation(sig, json!({"where": w, "input": input(), "expected": outcome_json(&exp), "observed": obs_json(&obs)})); }
+    LegResult { expected: exp.verdict(), seen: if obs.is_ok() { Seen::Applied } else { Seen::Refused } }
+}
+
+fn text_expressible(d: &MapsDiff) -> bool { refmodel::diff_comments(d).iter().all(|c| emit::comment_expressible(c)) }
+
+fn count_leg(rep: &mut Report, prefix: &str, r: &LegResult) {
+    rep.count(&format!("{prefix}.expected_{}", match r.expected { Verdict::Ok => "ok", Verdict::Refuse => "refusal", Verdict::RefuseBelowRemoved => "refusal_below_removed" }));
+    rep.count(&format!("{prefix}.observed_{}", match r.seen { Seen::Applied => "ok", Seen::Refused => "refusal", Seen::Panicked => "panic", Seen::NotRun => "not_run" }));
+}
+
+/// Both legs of one (diff, target) pair.
+fn apply_case(rep: &mut Report, rng: &mut Rng, d: &MapsDiff, tgt: &Tgt, t: usize, what: &str) -> (LegResult, Option<LegResult>) {
+    let m = memory_leg(rep, rng, d, tgt, t, what);
+    count_leg(rep, &format!("{what}.memory"), &m);
+    let tx = if text_expressible(d) { let r = text_leg(rep, rng, d, tgt, t, what); count_leg(rep, &format!("{what}.text"), &r); Some(r) } else { rep.count(&format!("{what}.text.skipped_comment_not_expressible")); None };
+    if refmodel::n_changes(d) > 0 && !tgt.maps.classes.is_empty() {
+        rep.nontrivial(tgt.maps.shape_fingerprint() ^ d.shape_fingerprint().rotate_left(17) ^ (m.expected as u64));
+    }
+    (m, tx)
+}
+
+// ------------------------------------------------------------------------------------------------------------
+// workloads
+
+fn cfg_apply(i: u64) -> GenCfg {
+    // targets of apply may have entries without a target name and parameters with source names
+    let comments = if i % 5 == 4 { CommentClass::Hostile } else { CommentClass::Rich };
+    GenCfg { namespaces: Some(if i % 6 == 5 { 3 } else { 2 }), comments, comment_chance: (2, 5), absent: (1, 6), max_classes: 4, max_fields: 3, max_methods: 3, big: (1, 60), ..GenCfg::default() }
+}
+fn pick_t(rng: &mut Rng, n: usize) -> usize { if n == 2 { 1 } else { rng.usize_in(1, n - 1) } }
+
+fn consistent_case(rng: &mut Rng, rep: &mut Report, i: u64) {
+    let cfg = cfg_apply(i);
+    let tgt = gen::gen_tgt(rng, &cfg);
+    let t = pick_t(rng, tgt.maps.n());
+    let d = gen::cons_diff(rng, &cfg, &tgt, t, true);
+    rep.count(&format!("consistent.namespaces_{}.target_{}", tgt.maps.n(), t));
+    let (m, _) = apply_case(rep, rng, &d, &tgt, t, "consistent");
+    if m.expected != Verdict::Ok { eprintln!("HARNESS-ERROR C04 generator: a diff generated as consistent is refused by the reference\n{}\n{}", tgt.maps.render(), d.render()); std::process::exit(3); }
+    if rep.want_sample() && (2..=3).contains(&tgt.maps.classes.len()) && refmodel::n_changes(&d) >= 3 {
+        let exp = ref_apply(&d, &tgt, t);
+        rep.sample(|| json!({"workload": "consistent", "target": tgt.maps.render(), "diff": d.render(), "result_expected_and_observed": exp.result.maps.render()}));
+    }
+}
+
+fn random_case(rng: &mut Rng, rep: &mut Report, i: u64) {
+    let cfg = cfg_apply(i);
+    let small = GenCfg { max_classes: 3, max_fields: 2, max_methods: 2, max_params: 2, big: (0, 1), ..cfg.clone() };
+    let d = maps::gen::gen_diff(rng, &small);
+    let n = cfg.namespaces.unwrap_or(2);
+    let t = pick_t(rng, n);
+    let ok = *rng.pick(&[(1u32, 1u32), (49, 50), (19, 20), (4, 5)]);
+    let tgt = gen::target_for(rng, &cfg, &d, n, t, ok);
+    let (m, _) = apply_case(rep, rng, &d, &tgt, t, "random");
+    if m.expected == Verdict::Refuse { let exp = ref_apply(&d, &tgt, t); for k in exp.reason_kinds() { rep.seen("random.refusal_reasons", &k); } }
+}
+
+/// per-cell counters live in the report under this prefix and are moved into the hit matrix at the end
+const CELL: &str = "cell|";
+
+fn hostile_case(rng: &mut Rng, rep: &mut Report, i: u64, cells: &[Cell]) {
+    let cell = &cells[(i as usize) % cells.len()];
+    let round = i as usize / cells.len();
+    // the first rounds use comments the text form can carry, every fourth round the hostile comment class (memory leg only)
+    let comments = if round % 4 == 3 { CommentClass::Hostile } else { CommentClass::Rich };
+    let n = if round % 5 == 4 { 3 } else { 2 };
+    let cfg = GenCfg { namespaces: Some(n), comments, comment_chance: (2, 5), absent: (1, 6), max_classes: 3, max_fields: 2, max_methods: 2, max_params: 2, big: (0, 1), ..GenCfg::default() };
+    let t = pick_t(rng, n);
+    let h = gen::hostile(rng, &cfg, cell, n, t);
+    let label = cell.label();
+    let what = "hostile";
+    if h.already_applied { rep.count(&format!("hostile.misfit_but_target_already_has_the_new_value.{}", if cell.kind == gen::Kind::Name { "name" } else { "comment" })); }
+    let check = |leg: &str, r: &LegResult, text: bool| {
+        let want = match gen::table_expect(cell, text) { Expect::Ok => Verdict::Ok, Expect::Refuse => Verdict::Refuse, Expect::RefuseBelowRemoved => Verdict::RefuseBelowRemoved };
+        if r.expected != want {
+            eprintln!("HARNESS-ERROR C04 oracle self-check: cell table says {want:?}, recursive reference says {:?} for cell {label} ({leg} leg) at {}\n--- target\n{}--- diff\n{}", r.expected, h.site, h.tgt.maps.render(), h.diff.render());
+            std::process::exit(3);
+        }
+    };
+    let m = memory_leg(rep, rng, &h.diff, &h.tgt, t, what);
+    check("memory", &m, false);
+    count_leg(rep, "hostile.memory", &m);
+    rep.count(&format!("{CELL}{label}|memory|cases"));
+    rep.count(&format!("{CELL}{label}|memory|{}", match m.seen { Seen::Applied => "applied", Seen::Refused => "refused", _ => "other" }));
+    if cell.in_text() && text_expressible(&h.diff) {
+        let r = text_leg(rep, rng, &h.diff, &h.tgt, t, what);
+        check("text", &r, true);
+        count_leg(rep, "hostile.text", &r);
+        if r.seen != Seen::NotRun {
+            rep.count(&format!("{CELL}{label}|text|cases"));
+            rep.count(&format!("{CELL}{label}|text|{}", match r.seen { Seen::Applied => "applied", Seen::Refused => "refused", _ => "other" }));
+        }
+    }
+    rep.nontrivial(common::rng::fnv_str(&label) ^ h.tgt.maps.shape_fingerprint() ^ h.diff.shape_fingerprint().rotate_left(17));
+    if rep.want_sample() && round == 0 && i % 37 == 5 {
+        let exp = ref_apply(&h.diff, &h.tgt, t);
+        rep.sample(|| json!({"workload": "hostile", "cell": label, "site": h.site, "target": h.tgt.maps.render(), "diff": h.diff.render(), "reference": format!("{:?} {:?}", exp.verdict(), exp.reason_kinds()), "observed": format!("{:?}", m.seen)}));
+    }
+}
+
+/// what the law can promise about B: source names of parameters have no place in a diff — a parameter that exists
+/// in A keeps A's source name, an added one has none
+fn law_expectation(a: &Tgt, b: &Tgt) -> (Tgt, bool) {
+    let mut e = b.clone();
+    let mut adjusted = false;
+    for (ck, c) in e.maps.classes.iter_mut() { for (mk, m) in c.methods.iter_mut() { for (i, p) in m.params.iter_mut() {
+        let src = a.maps.classes.get(ck).and_then(|c| c.methods.get(mk)).and_then(|m| m.params.get(i)).and_then(|p| p.names[0].clone());
+        if p.names[0] != src { adjusted = true; p.names[0] = src; }
+    } } }
+    (e, adjusted)
+}
+fn fully_named(x: &Tgt) -> bool { let mut ok = true; x.maps.visit(|_, r, _| if r[1].is_none() { ok = false; }); ok }
+
+fn pair_case(rng: &mut Rng, rep: &mut Report, i: u64) {
+    let dom = i % 8;
+    let share = Share::ALL[((i / 8) % 6) as usize];
+    let base = GenCfg { namespaces: Some(2), fully_named: true, param_src: ParamSrc::Never, comments: CommentClass::Rich, comment_chance: (2, 5), max_classes: 5, max_fields: 3, max_methods: 3, big: (1, 60), ..GenCfg::default() };
+    let (cfg, domain) = match dom {
+        0..=4 => (base, "judged"),
+        5 => (GenCfg { comments: CommentClass::Hostile, ..base }, "judged_hostile_comments"),
+        6 => (GenCfg { param_src: ParamSrc::Mixed, ..base }, "parameter_source_names"),
+        _ => (GenCfg { fully_named: false, absent: (1, 12), ..base }, "partially_named"),
+    };
+    let mut a = gen::gen_tgt(rng, &cfg);
+    let mut b = gen::derive_b(rng, &cfg, &a, share);
+    if rng.bool() { std::mem::swap(&mut a, &mut b); }
+    rep.count(&format!("pairs.domain.{domain}"));
+    rep.count(&format!("pairs.share.{}", share.name()));
+    // overlap census per level
+    {
+        let (mut cs, mut ca, mut cb) = (0, 0, 0);
+        for k in a.maps.classes.keys() { if b.maps.classes.contains_key(k) { cs += 1 } else { ca += 1 } }
+        for k in b.maps.classes.keys() { if !a.maps.classes.contains_key(k) { cb += 1 } }
+        if cs > 0 { rep.count("pairs.class.some_shared"); } if ca > 0 { rep.count("pairs.class.some_only_in_A"); } if cb > 0 { rep.count("pairs.class.some_only_in_B"); }
+        if cs == 0 && ca > 0 && cb > 0 { rep.count("pairs.class.none_shared"); }
+        if cs > 0 && ca == 0 && cb == 0 { rep.count("pairs.class.all_shared"); }
+        for (k, x) in &a.maps.classes { if let Some(y) = b.maps.classes.get(k) {
+            let fs = x.fields.keys().filter(|f| y.fields.contains_key(*f)).count();
+            if fs > 0 { rep.count("pairs.field.some_shared"); } if fs < x.fields.len() { rep.count("pairs.field.some_only_in_A"); } if fs < y.fields.len() { rep.count("pairs.field.some_only_in_B"); }
+            if fs == 0 && !x.fields.is_empty() && !y.fields.is_empty() { rep.count("pairs.field.none_shared"); }
+            let ms = x.methods.keys().filter(|m| y.methods.contains_key(*m)).count();
+            if ms > 0 { rep.count("pairs.method.some_shared"); } if ms < x.methods.len() { rep.count("pairs.method.some_only_in_A"); } if ms < y.methods.len() { rep.count("pairs.method.some_only_in_B"); }
+            if ms == 0 && !x.methods.is_empty() && !y.methods.is_empty() { rep.count("pairs.method.none_shared"); }
+            for (mk, mx) in &x.methods { if let Some(my) = y.methods.get(mk) {
+                let ps = mx.params.keys().filter(|p| my.params.contains_key(*p)).count();
+                if ps > 0 { rep.count("pairs.parameter.some_shared"); } if ps < mx.params.len() { rep.count("pairs.parameter.some_only_in_A"); } if ps < my.params.len() { rep.count("pairs.parameter.some_only_in_B"); }
+                if ps == 0 && !mx.params.is_empty() && !my.params.is_empty() { rep.count("pairs.parameter.none_shared"); }
+            } }
+        } }
+    }
+    let input = || json!({"workload": "pairs", "domain": domain, "share": share.name(), "A": a.maps.render(), "A_file_comment": a.file_comment, "B": b.maps.render(), "B_file_comment": b.file_comment});
+    let qa = build_target::<2>(&a, rng);
+    let qb = build_target::<2>(&b, rng);
+    rep.eval();
+    let real = match guard(|| MappingsDiff::diff(&qa, &qb).map_err(|e| format!("{e:#}"))) {
+        Err(pi) => { rep.violation(format!("C04 panic {}", pi.site()), json!({"panic": pi.message, "input": input()})); return; }
+        Ok(r) => r,
+    };
+    if maps::from_quill(&qa) != a.maps || maps::from_quill(&qb) != b.maps { rep.violation("C04 diff: an input set is changed by the call", json!({"input": input()})); }
+    let reference = ref_diff(&a, &b);
+    let named = fully_named(&a) && fully_named(&b);
+    let qd = match (real, &reference) {
+        (Err(e), Ok(_)) => { rep.violation("C04 diff: refuses two sets in which every entry has a name in the target namespace", json!({"error": e, "input": input()})); return; }
+        (Err(_), Err(_)) => { rep.count("pairs.diff.refused.entry_without_target_name"); return; }
+        (Ok(qd), r) => {
+            if r.is_err() { rep.count("pairs.diff.ok_although_reference_cannot_state_it"); }
+            qd
+        }
+    };
+    debug_assert!(named == reference.is_ok());
+    let rd = maps::from_quill_diff(&qd);
+    if let Ok(refd) = &reference {
+        rep.count("pairs.diff.compared_with_reference");
+        // equal columns / Edit(a,a) and None mean the same; everything else must be stated exactly as R-diff states it
+        let (mut en, mut on) = (refmodel::normalise(refd), refmodel::normalise(&rd));
+        en.comment = match &refd.comment { Act::Edit(x, y) if x == y => Act::None, o => o.clone() };
+        on.comment = match &rd.comment { Act::Edit(x, y) if x == y => Act::None, o => o.clone() };
+        on.info = rd.info.clone();
+        for (k, w) in cmp::kinds(&cmp::diff_diffs(&en, &on)) { rep.violation(format!("C04 diff: {k}"), json!({"where": w, "input": input(), "expected": refd.render(), "observed": rd.render()})); }
+    }
+    let (want, adjusted) = law_expectation(&a, &b);
+    if adjusted { rep.count("pairs.law.parameter_source_names_not_carried"); }
+    // memory
+    let law = |rep: &mut Report, leg: &str, obs: Result<Result<Tgt, String>, PanicInfo>, want: &Tgt, extra: Value| -> bool {
+        match obs {
+            Err(pi) => { rep.violation(format!("C04 panic {}", pi.site()), json!({"panic": pi.message, "leg": leg, "input": input()})); false }
+            Ok(Err(e)) => { rep.violation("C04 law apply(diff(A,B),A)=B: apply_to refuses the diff that diff() produced", json!({"leg": leg, "error": e, "input": input(), "diff": rd.render(), "more": extra})); false }
+            Ok(Ok(o)) => {
+                let dd = tgt_diffs(want, &o);
+                for (k, w) in &dd { rep.violation(format!("C04 law apply(diff(A,B),A)=B: {k}"), json!({"leg": leg, "where": w, "input": input(), "diff": rd.render(), "observed": o.maps.render(), "more": extra})); }
+                dd.is_empty()
+            }
+        }
+    };
+    rep.eval();
+    let obs = real_apply::<2>(rep, &qd, &a, 1, rng, &input);
+    if law(rep, "memory", obs, &want, Value::Null) { rep.count("pairs.law.memory.held"); }
+    if a != b && !a.maps.classes.is_empty() && !b.maps.classes.is_empty() { rep.nontrivial(a.maps.shape_fingerprint() ^ b.maps.shape_fingerprint().rotate_left(23)); }
+    // text: full and sparse
+    if text_expressible(&rd) {
+        let want_text = Tgt { maps: want.maps.clone(), file_comment: a.file_comment.clone() };
+        for (leg, nd) in [("text", refmodel::normalise(&rd)), ("text_sparse", refmodel::prune(&rd))] {
+            if leg == "text_sparse" { rep.max("max.pairs.nodes_pruned_from_sparse_text", (rd.counts().0 + rd.counts().1 + rd.counts().2 + rd.counts().3 - nd.counts().0 - nd.counts().1 - nd.counts().2 - nd.counts().3) as u64); }
+            let Some(q) = through_text(rep, rng, &nd, "pairs") else { continue };
+            rep.eval();
+            let obs = real_apply::<2>(rep, &q, &a, 1, rng, &input);
+            if law(rep, leg, obs, &want_text, json!({"diff_as_read": nd.render()})) { rep.count(&format!("pairs.law.{leg}.held")); }
+        }
+    } else { rep.count("pairs.law.text.skipped_comment_not_expressible"); }
+    if rep.want_sample() && a != b && (1..=2).contains(&a.maps.classes.len()) && (1..=2).contains(&b.maps.classes.len()) && share == Share::SomeKeys {
+        let text = emit::emit(&refmodel::prune(&rd), &emit::Layout { order: emit::Order::Sorted, keep_trailing_empty: 0, final_newline: true, explicit_none_comment: false }, rng);
+        rep.sample(|| json!({"workload": "pairs", "A": a.maps.render(), "B": b.maps.render(), "diff(A,B)": rd.render(), "sparse_tinydiff_text": text}));
+    }
+}
+
+/// Histories: a chain of states S0 .. Sk and back to S0; every step is `cur = apply(diff(cur, S_next), cur)` on the
+/// REAL tree the previous step produced (memory / full text / sparse text drawn per step).
+fn history_case(rng: &mut Rng, rep: &mut Report, i: u64) {
+    let cfg = GenCfg { namespaces: Some(2), fully_named: true, param_src: ParamSrc::Never, comments: CommentClass::Rich, comment_chance: (2, 5), max_classes: 4, max_fields: 3, max_methods: 3, big: (1, 80), ..GenCfg::default() };
+    let len = 2 + (i % 4) as usize;
+    let mut states = vec![gen::gen_tgt(rng, &cfg)];
+    for _ in 0..len { let share = *rng.pick(&[Share::AllKeys, Share::SomeKeys, Share::SomeKeys, Share::NoMemberKeys, Share::Independent, Share::NoClassKeys, Share::Identical]); let n = gen::derive_b(rng, &cfg, states.last().unwrap(), share); states.push(n); }
+    let path: Vec<usize> = (1..=len).chain((0..len).rev()).collect();
+    let mut cur = build_target::<2>(&states[0], rng);
+    let mut fc = states[0].file_comment.clone();
+    let mut trail = vec![];
+    for (step, &to) in path.iter().enumerate() {
+        let qto = build_target::<2>(&states[to], rng);
+        let mode = rng.below(3);
+        trail.push(format!("-> S{to} via {}", ["memory", "text", "sparse text"][mode]));
+        let input = || json!({"workload": "history", "states": states.iter().map(|s| s.maps.render()).collect::<Vec<_>>(), "file_comments": states.iter().map(|s| s.file_comment.clone()).collect::<Vec<_>>(), "steps_so_far": trail, "failing_step": step});
+        rep.eval();
+        let qd = match guard(|| MappingsDiff::diff(&cur, &qto).map_err(|e| format!("{e:#}"))) {
+            Err(pi) => { rep.violation(format!("C04 panic {}", pi.site()), json!({"panic": pi.message, "input": input()})); return; }
+            Ok(Err(e)) => { rep.violation("C04 history: diff() refuses the tree apply_to produced and a fully named set", json!({"error": e, "input": input()})); return; }
+            Ok(Ok(d)) => d,
+        };
+        let rd = maps::from_quill_diff(&qd);
+        let mode = if text_expressible(&rd) { mode } else { 0 };
+        let qd = if mode == 0 { fc = states[to].file_comment.clone(); qd } else {
+            let nd = if mode == 1 { refmodel::normalise(&rd) } else { refmodel::prune(&rd) };
+            match through_text(rep, rng, &nd, "history") { Some(q) => q, None => return }
+        };
+        rep.eval();
+        let tree = std::mem::replace(&mut cur, Mappings::from_namespaces(["x", "y"]).expect("namespaces"));
+        let ns = states[to].maps.namespaces[1].clone();
+        cur = match guard(|| qd.apply_to::<2, (), ()>(tree, &ns).map_err(|e| format!("{e:#}"))) {
+            Err(pi) => { rep.violation(format!("C04 panic {}", pi.site()), json!({"panic": pi.message, "input": input()})); return; }
+            Ok(Err(e)) => { rep.violation("C04 history: apply_to refuses the diff that diff() produced from the current tree", json!({"error": e, "input": input(), "diff": rd.render()})); return; }
+            Ok(Ok(q)) => q,
+        };
+        maps::watch(rep, "C04", "apply_to (history)", &cur, input);
+        let want = Tgt { maps: states[to].maps.clone(), file_comment: fc.clone() };
+        let dd = tgt_diffs(&want, &observe(&cur));
+        for (k, w) in &dd { rep.violation(format!("C04 history: state after a step differs from the state the diff was made for: {k}"), json!({"where": w, "input": input(), "diff": rd.render(), "observed": observe(&cur).maps.render()})); }
+        if !dd.is_empty() { return; }
+        rep.count("history.steps_held");
+        rep.count(&format!("history.step_via.{}", ["memory", "text", "sparse_text"][mode]));
+    }
+    rep.count("history.returned_to_the_first_state");
+    rep.max("max.history.steps", path.len() as u64);
+    if states.windows(2).any(|w| w[0] != w[1]) { rep.nontrivial(states.iter().fold(0x4849u64, |h, s| h.rotate_left(7) ^ s.maps.shape_fingerprint())); }
+}
+
+fn option_case(rng: &mut Rng, rep: &mut Report) {
+    let cfg = GenCfg { comments: CommentClass::Hostile, ..GenCfg::default() };
+    let a = maps::gen::comment(rng, cfg.comments);
+    let b = gen::draw_comment_not(rng, &cfg, Some(&a));
+    let c = loop { let c = gen::draw_comment_not(rng, &cfg, Some(&a)); if c != b { break c; } };
+    let actions: [(&str, Action<String>); 5] = [("None", Action::None), ("Add", Action::Add(b.clone())), ("Remove", Action::Remove(a.clone())), ("Edit", Action::Edit(a.clone(), b.clone())), ("EditSame", Action::Edit(a.clone(), a.clone()))];
+    let targets: [(&str, Option<String>); 4] = [("absent", None), ("present_matching", Some(a.clone())), ("present_mismatching", Some(c.clone())), ("present_equal_to_new_value", Some(b.clone()))];
+    for (an, act) in &actions { for (tn, tg) in &targets {
+        // the table of the statement: None keeps; Add needs absent; Remove / Edit need the stated old value
+        let expected: Result<Option<String>, ()> = match (act, tg) {
+            (Action::None, x) => Ok(x.clone()),
+            (Action::Add(v), None) => Ok(Some(v.clone())),
+            (Action::Add(_), Some(_)) => Err(()),
+            (Action::Remove(o), Some(x)) if o == x => Ok(None),
+            (Action::Edit(o, v), Some(x)) if o == x => Ok(Some(v.clone())),
+            _ => Err(()),
+        };
+        rep.eval();
+        rep.count(&format!("option.{an}.{tn}"));
+        let input = || json!({"action": format!("{act:?}"), "target": tg});
+        match guard(|| quill::apply_diff_option(act, tg.clone()).map_err(|e| format!("{e:#}"))) {
+            Err(pi) => rep.violation(format!("C04 panic {}", pi.site()), json!({"panic": pi.message, "input": input()})),
+            Ok(obs) => match (&expected, &obs) {
+                (Ok(e), Ok(o)) if e == o => {}
+                (Err(()), Err(_)) => rep.count("option.refused"),
+                (Ok(_), Ok(_)) => rep.violation(format!("C04 apply_diff_option: wrong result for {an} on a {tn} target"), json!({"input": input(), "expected": expected.clone().ok(), "observed": obs.clone().ok()})),
+                (Ok(_), Err(e)) => rep.violation(format!("C04 apply_diff_option: refuses {an} on a {tn} target"), json!({"input": input(), "error": e})),
+                (Err(()), Ok(o)) => rep.violation(format!("C04 apply_diff_option: accepts {an} on a {tn} target"), json!({"input": input(), "observed": o})),
+            },
+        }
+    } }
+}
+
+// ------------------------------------------------------------------------------------------------------------
+// self-checks
+
+fn canaries() {
+    let bad = |s: &str| -> ! { eprintln!("HARNESS-ERROR C04 self-check failed: {s}"); std::process::exit(3) };
+    if let Err(e) = maps::self_test(4, 30) { bad(&e); }
+    let s = |x: &str| Some(x.to_string());
+    // hand-computed example (shape of the repository's version-graph fixture 1.3 -> 1.4)
+    let mut a = maps::Maps::new(&["official", "named"]);
+    a.classes.insert("a".into(), maps::Class { names: vec![s("a"), s("org/example/ClassA")], ..Default::default() });
+    let mut cb = maps::Class { names: vec![s("b"), s("org/example/ClassB")], comment: s("old"), ..Default::default() };
+    cb.fields.insert(("a".into(), "I".into()), maps::Field { names: vec![s("a"), s("fieldA")], comment: None });
+    cb.methods.insert(("m".into(), "()V".into()), maps::Method { names: vec![s("m"), s("run")], comment: None, params: [(1, maps::Param { names: vec![None, s("p")], comment: None })].into() });
+    a.classes.insert("b".into(), cb);
+    let a = Tgt { maps: a, file_comment: None };
+    let mut d = MapsDiff::default();
+    d.classes.insert("a".into(), maps::ClassDiff { comment: Act::Add("A comment.".into()), ..Default::default() });
+    let mut db = maps::ClassDiff { name: Act::Edit("org/example/ClassB".into(), "B2".into()), comment: Act::Remove("old".into()), ..Default::default() };
+    db.fields.insert(("a".into(), "I".into()), maps::FieldDiff { name: Act::Remove("fieldA".into()), comment: Act::None });
+    db.methods.insert(("m".into(), "()V".into()), maps::MethodDiff { name: Act::None, comment: Act::None, params: [(1, maps::ParamDiff { name: Act::Edit("p".into(), "q".into()), comment: Act::Add("pc".into()) }), (2, maps::ParamDiff { name: Act::Add("r".into()), comment: Act::None })].into() });
+    d.classes.insert("b".into(), db);
+    let mut dc = maps::ClassDiff { name: Act::Add("org/example/ClassC".into()), ..Default::default() };
+    dc.fields.insert(("x".into(), "J".into()), maps::FieldDiff { name: Act::Add("fx".into()), comment: Act::None });
+    d.classes.insert("c".into(), dc);
+    let o = ref_apply(&d, &a, 1);
+    let want = "ns\tofficial\tnamed\nc\ta\torg/example/ClassA\n\tc\t\"A comment.\"\nc\tb\tB2\n\tm\t()V\tm\trun\n\t\tp\t1\t\tq\n\t\t\tc\t\"pc\"\n\t\tp\t2\t\tr\nc\tc\torg/example/ClassC\n\tf\tJ\tx\tfx\n";
+    if o.verdict() != Verdict::Ok || o.result.maps.render() != want { bad(&format!("reference apply disagrees with the hand-computed example:\n{:?}\n{}", o.reasons, o.result.maps.render())); }
+    // emitter: hand-written text
+    let lay = emit::Layout { order: emit::Order::Sorted, keep_trailing_empty: 0, final_newline: true, explicit_none_comment: false };
+    let text = emit::emit(&d, &lay, &mut Rng::new(1));
+    let want_text = "tiny\t2\t0\nc\ta\n\tc\t\tA comment.\nc\tb\torg/example/ClassB\tB2\n\tc\told\n\tf\tI\ta\tfieldA\n\tm\t()V\tm\n\t\tp\t1\t\tp\tq\n\t\t\tc\t\tpc\n\t\tp\t2\t\t\tr\nc\tc\t\torg/example/ClassC\n\tf\tJ\tx\t\tfx\n";
+    if text != want_text { bad(&format!("emitter disagrees with the hand-written text:\n{text:?}")); }
+    if emit::emit(&MapsDiff { classes: [("k".to_string(), maps::ClassDiff { comment: Act::Edit("a\nb".into(), "c".into()), ..Default::default() })].into(), ..Default::default() }, &lay, &mut Rng::new(1)) != "tiny\t2\t0\nc\tk\n\tc\ta\\nb\tc\n" { bad("emitter: comment line / LF escape"); }
+    // every refusal condition of the statement, one by one, on the example
+    let refuses = |f: &dyn Fn(&mut MapsDiff), why: refmodel::Why| { let mut x = d.clone(); f(&mut x); let o = ref_apply(&x, &a, 1); o.verdict() == Verdict::Refuse && o.reasons.len() == 1 && o.reasons[0].why == why };
+    use refmodel::Why;
+    if !refuses(&|x| x.classes.get_mut("b").unwrap().name = Act::Edit("other".into(), "B2".into()), Why::OldNameMismatch) { bad("reference accepts an Edit with a wrong old name"); }
+    if !refuses(&|x| x.classes.get_mut("b").unwrap().name = Act::Remove("other".into()), Why::OldNameMismatch) { bad("reference accepts a Remove with a wrong old name"); }
+    if !refuses(&|x| x.classes.get_mut("a").unwrap().name = Act::Add("X".into()), Why::AddNameCollides) { bad("reference accepts a colliding Add"); }
+    if !refuses(&|x| { x.classes.insert("zz".into(), maps::ClassDiff::default()); }, Why::AbsentEntry) { bad("reference accepts None on an absent class"); }
+    if !refuses(&|x| x.classes.get_mut("c").unwrap().fields.values_mut().next().unwrap().name = Act::Edit("u".into(), "v".into()), Why::AbsentEntry) { bad("reference accepts an Edit below an added class"); }
+    if !refuses(&|x| x.classes.get_mut("b").unwrap().comment = Act::Remove("other".into()), Why::OldCommentMismatch) { bad("reference accepts a comment Remove with a wrong old comment"); }
+    if !refuses(&|x| x.classes.get_mut("b").unwrap().comment = Act::Add("n".into()), Why::AddCommentCollides) { bad("reference accepts a colliding comment Add"); }
+    if !refuses(&|x| x.classes.get_mut("a").unwrap().comment = Act::Edit("o".into(), "n".into()), Why::AbsentComment) { bad("reference accepts a comment Edit on an entry without comment"); }
+    // below a removed entry
+    { let mut x = d.clone(); let b = x.classes.get_mut("b").unwrap(); b.name = Act::Remove("org/example/ClassB".into()); b.fields.values_mut().next().unwrap().name = Act::Remove("wrong".into());
+      let o = ref_apply(&x, &a, 1); if o.verdict() != Verdict::RefuseBelowRemoved || o.result.maps.classes.contains_key("b") { bad("reference: below-removed bookkeeping"); } }
+    // judge: deliberately wrong observations must be flagged
+    let good = Tgt { maps: o.result.maps.clone(), file_comment: None };
+    if !judge(&o, &Ok(good.clone())).is_empty() { bad("judge flags the expected result"); }
+    let mut w = good.clone(); w.maps.classes.get_mut("b").unwrap().fields.insert(("a".into(), "I".into()), maps::Field { names: vec![s("a"), s("fieldA")], comment: None });
+    if judge(&o, &Ok(w)).is_empty() { bad("judge misses a field that should have been removed"); }
+    let mut w = good.clone(); w.maps.classes.get_mut("a").unwrap().names[1] = s("touched");
+    if judge(&o, &Ok(w)).is_empty() { bad("judge misses a changed untouched name"); }
+    let mut w = good.clone(); w.file_comment = s("x");
+    if judge(&o, &Ok(w)).is_empty() { bad("judge misses an invented file comment"); }
+    if judge(&o, &Err("e".into())).is_empty() { bad("judge misses a spurious refusal"); }
+    let mut x = d.clone(); x.classes.get_mut("b").unwrap().name = Act::Edit("other".into(), "B2".into());
+    let r = ref_apply(&x, &a, 1);
+    if judge(&r, &Ok(good.clone())).is_empty() || !judge(&r, &Err("e".into())).is_empty() { bad("judge: refusal expectations"); }
+    // laws of the reference: R-apply(R-diff(A,B), A) = B, also after normalise / prune; diff of a set with itself changes nothing
+    let mut rng = Rng::new(0xC04);
+    let cfg = GenCfg { namespaces: Some(2), fully_named: true, param_src: ParamSrc::Never, ..GenCfg::default() };
+    for i in 0..300 {
+        let a = gen::gen_tgt(&mut rng, &cfg);
+        let b = gen::derive_b(&mut rng, &cfg, &a, Share::ALL[i % 6]);
+        let Ok(rd) = ref_diff(&a, &b) else { bad("reference diff refuses fully named sets") };
+        let o = ref_apply(&rd, &a, 1);
+        if o.verdict() != Verdict::Ok || o.result != b { bad(&format!("reference law R-apply(R-diff(A,B),A)=B fails\nA\n{}B\n{}", a.maps.render(), b.maps.render())); }
+        for nd in [refmodel::normalise(&rd), refmodel::prune(&rd)] {
+            let o = ref_apply(&nd, &a, 1);
+            if o.verdict() != Verdict::Ok || o.result.maps != b.maps { bad("reference law fails after normalise / prune"); }
+        }
+        if refmodel::n_changes(&ref_diff(&a, &a).unwrap()) != 0 { bad("reference: diff(A,A) states a change"); }
+        // a generated consistent diff is accepted by the reference and changes nothing it does not mention
+        let d = gen::cons_diff(&mut rng, &GenCfg { fully_named: false, ..cfg.clone() }, &a, 1, true);
+        let o = ref_apply(&d, &a, 1);
+        if o.verdict() != Verdict::Ok { bad("generator: consistent diff refused by the reference"); }
+        for (k, c) in &a.maps.classes { if !d.classes.contains_key(k) && o.result.maps.classes.get(k) != Some(c) { bad("reference: an entry the diff does not mention changed"); } }
+    }
+    // cell table: the cells are pairwise distinct and every level x kind has every reachable action
+    let cells = gen::all_cells();
+    let mut labels: Vec<String> = cells.iter().map(|c| c.label()).collect(); labels.sort(); labels.dedup();
+    if labels.len() != cells.len() { bad("cell labels are not distinct"); }
+}
+
+// ------------------------------------------------------------------------------------------------------------
+
+use maps::Act;
+
+fn main() {
+    let mut ctx = Ctx::from_args("C04", 60, 540);
+    let replay = load_replay(&mut ctx);
+    let dir = format!("{}/scratch/c04-{}", ctx.out_dir, std::process::id());
+    if let Err(e) = std::fs::create_dir_all(&dir) { eprintln!("HARNESS-ERROR cannot create {dir}: {e}"); std::process::exit(3); }
+    SCRATCH_DIR.set(dir.clone()).ok();
+    canaries();
+    let cells = gen::all_cells();
+    let mut rep = Report::new();
+    // Two phases: a short coverage phase of every workload first (all obligations are met there, a few seconds even
+    // on a loaded machine), then the bulk under the same closures (workload names with a `+`; the wall-clock budget
+    // may end those early).
+    let nc = cells.len() as u64;
+    for (suffix, hostile_rounds, option, pairs, history, consistent, random) in [("", 3u64, 40u64, 960u64, 80u64, 400u64, 400u64),
+        ("+", ctx.tier.pick(50, 1500), ctx.tier.pick(300, 20_000), ctx.tier.pick(12_000, 400_000), ctx.tier.pick(2_000, 60_000), ctx.tier.pick(6_000, 200_000), ctx.tier.pick(6_000, 200_000))] {
+        run_cases(&ctx, &replay, &mut rep, &format!("hostile{suffix}"), hostile_rounds * nc, |rng, rep, i| hostile_case(rng, rep, i, &cells));
+        run_cases(&ctx, &replay, &mut rep, &format!("option{suffix}"), option, |rng, rep, _| option_case(rng, rep));
+        run_cases(&ctx, &replay, &mut rep, &format!("pairs{suffix}"), pairs, |rng, rep, i| pair_case(rng, rep, i));
+        run_cases(&ctx, &replay, &mut rep, &format!("history{suffix}"), history, |rng, rep, i| history_case(rng, rep, i));
+        run_cases(&ctx, &replay, &mut rep, &format!("consistent{suffix}"), consistent, |rng, rep, i| consistent_case(rng, rep, i));
+        run_cases(&ctx, &replay, &mut rep, &format!("random{suffix}"), random, |rng, rep, i| random_case(rng, rep, i));
+    }
+    let _ = std::fs::remove_dir_all(&dir);
+
+    // ---- hit matrix: per-cell counters move from the counter table into their own evidence object
+    let cell_counters: Vec<(String, u64)> = rep.counters.iter().filter(|(k, _)| k.starts_with(CELL)).map(|(k, v)| (k.clone(), *v)).collect();
+    for (k, _) in &cell_counters { rep.counters.remove(k); }
+    let getc = |label: &str, leg: &str, what: &str| cell_counters.iter().find(|(k, _)| *k == format!("{CELL}{label}|{leg}|{what}")).map(|(_, v)| *v).unwrap_or(0);
+    let mut matrix = vec![];
+    let (mut cells_hit_memory, mut cells_hit_text, mut cells_text) = (0, 0, 0);
+    let mut missing: Vec<String> = vec![];
+    let show = |e: Expect| match e { Expect::Ok => "applies", Expect::Refuse => "refuses", Expect::RefuseBelowRemoved => "refuses (inconsistency below a removed entry)" };
+    for c in &cells {
+        let l = c.label();
+        let (mc, tc) = (getc(&l, "memory", "cases"), getc(&l, "text", "cases"));
+        if mc > 0 { cells_hit_memory += 1; } else { missing.push(format!("{l} (memory)")); }
+        if c.in_text() { cells_text += 1; if tc > 0 { cells_hit_text += 1; } else { missing.push(format!("{l} (text)")); } }
+        matrix.push(json!({"cell": l, "expected_memory": show(gen::table_expect(c, false)), "expected_text": if c.in_text() { json!(show(gen::table_expect(c, true))) } else { Value::Null },
+            "memory": {"cases": mc, "refused": getc(&l, "memory", "refused"), "applied": getc(&l, "memory", "applied")},
+            "text": {"cases": tc, "refused": getc(&l, "text", "refused"), "applied": getc(&l, "text", "applied")}}));
+    }
+    let mut meta = Meta::new("exploration",
+        "six seeded workloads on the real MappingsDiff::{diff, apply_to}, tiny_v2_diff::read_file and apply_diff_option: (hostile) one cell of the table level x {name, comment} x action x target state x old value x context, realised at a fresh spine inside an otherwise consistent (diff, target) pair, cells taken round-robin; \
+         (pairs) A from maps::gen, B by an edit script sharing all / some / no keys per level, diff(A,B) compared with R-diff and applied to A in memory, through the full and through the sparse .tinydiff text; (consistent) generated consistent diffs on targets with partial names; (random) maps::gen::gen_diff against a target built for it with a drawn per-node consistency rate; (history) chains S0 -> .. -> Sk -> .. -> S0 where every step applies diff(current real tree, next state) to the current real tree, in memory or through text; (option) the 5 x 4 table of apply_diff_option. \
+         evaluations = calls of the real code judged; non-trivial = a diff with at least one changing action applied to a non-empty target, a pair A != B of non-empty sets, or a hostile cell; distinct = structural fingerprint of (target, diff[, expected verdict | cell])")
+        .assume("names contain no white space; comments are non-empty; comments in the text legs contain no backslash, TAB or CR (the format has one escape, \\n; the same limitation of tiny_v2 is recorded under C03)")
+        .assume("the law is judged on sets where every entry has a name in the target namespace; diff() refusing other sets is accepted (counted)")
+        .assume("source names of parameters are not part of a diff: the result keeps A's, added parameters have none (compared exactly that way)")
+        .assume("the file-level comment action and the namespace action exist only in memory (the .tinydiff format has no line for them)")
+        .assume("the target namespace is never the first (source) namespace");
+    meta.extra.insert("hit_matrix".into(), json!({"cells": cells.len(), "cells_hit_in_memory": cells_hit_memory, "cells_with_text_form": cells_text, "cells_hit_through_text": cells_hit_text, "rows": matrix}));
+    if ctx.replay.is_none() {
+        meta.oblige(format!("every reachable cell of the hostile table was executed in memory ({} cells) and, where the format has a line for it, through text ({} cells); missing: {:?}", cells.len(), cells_text, missing.iter().take(8).collect::<Vec<_>>()), missing.is_empty());
+        let mut need: Vec<String> = vec![];
+        for leg in ["memory", "text"] { for o in ["expected_ok", "expected_refusal", "expected_refusal_below_removed", "observed_ok", "observed_refusal"] { need.push(format!("hostile.{leg}.{o}")); } }
+        for w in ["consistent", "random"] { for leg in ["memory", "text"] { need.push(format!("{w}.{leg}.expected_ok")); need.push(format!("{w}.{leg}.observed_ok")); } }
+        for leg in ["memory", "text"] { need.push(format!("random.{leg}.expected_refusal")); need.push(format!("random.{leg}.observed_refusal")); }
+        for s in Share::ALL { need.push(format!("pairs.share.{}", s.name())); }
+        for l in ["class", "field", "method", "parameter"] { for s in ["some_shared", "some_only_in_A", "some_only_in_B", "none_shared"] { need.push(format!("pairs.{l}.{s}")); } }
+        for k in ["pairs.class.all_shared", "pairs.domain.judged", "pairs.domain.parameter_source_names", "pairs.domain.partially_named", "pairs.diff.compared_with_reference", "pairs.diff.refused.entry_without_target_name",
+            "pairs.law.memory.held", "pairs.law.text.held", "pairs.law.text_sparse.held", "pairs.law.parameter_source_names_not_carried", "text.read_equals_written", "invariant.walks",
+            "consistent.namespaces_2.target_1", "consistent.namespaces_3.target_1", "consistent.namespaces_3.target_2", "option.refused", "hostile.misfit_but_target_already_has_the_new_value.name", "hostile.misfit_but_target_already_has_the_new_value.comment",
+            "history.returned_to_the_first_state", "history.step_via.memory", "history.step_via.text", "history.step_via.sparse_text"] { need.push(k.to_string()); }
+        for a in ["None", "Add", "Remove", "Edit", "EditSame"] { for t in ["absent", "present_matching", "present_mismatching", "present_equal_to_new_value"] { need.push(format!("option.{a}.{t}")); } }
+        for k in need { meta.oblige(format!("at least one case with {k}"), rep.get(&k) > 0); }
+        meta.oblige("at least 10 distinct text layouts written", rep.seen_n("text.layouts") >= 10);
+    }
+    std::process::exit(finish(&ctx, rep, meta));
+}
